@@ -583,6 +583,40 @@ def run_alg(ctx, case):
           key = "parallel/numpoly-of-sum-with-denpoly-of-product"
       ctx.violation(key, case, got=repr(r), want=repr(mdl))
       return True
+  # the parts of a container may be any linear filter: LinearFilter objects
+  # and nested containers (is_linear / is_lti look into them)
+  other = [
+    ("parallel2-linearfilter-parts",
+     lambda: ParallelFilter(mk(fs, "linear"), mk(gs, "linear")), mf + mg),
+    ("cascade2-linearfilter-parts",
+     lambda: CascadeFilter(mk(fs, "linear"), mk(gs, "linear")), mf * mg),
+    ("parallel-linearfilter-and-zfilter",
+     lambda: ParallelFilter(mk(fs, "linear"), mk(gs)), mf + mg),
+    ("parallel-of-cascade",
+     lambda: ParallelFilter(mk(fs), CascadeFilter(mk(gs), mk(hs))),
+     mf + mg * mh),
+    ("cascade-of-parallel",
+     lambda: CascadeFilter(ParallelFilter(mk(fs), mk(gs)), mk(hs)),
+     (mf + mg) * mh)]
+  what, build, mdl = other[(n + k) % len(other)]
+  try:
+    cont = build()
+    got = list(itertools.islice(iter(cont(list(x), zero=0)), xlen + 3))
+    r = RF(fracdict(dict(cont.numpoly.terms())),
+           fracdict(dict(cont.denpoly.terms())))
+  except Exception as exc:  # noqa
+    ctx.violation(what + "/polys-unreadable", case, exc=repr(exc))
+    return True
+  num, den = mdl.normalised()
+  if not compare_out(ctx, case, what, got, recursion(num, den, x, None, 0),
+                     all(coeffs_exact(mk(p_)) for p_ in (fs, gs, hs)),
+                     growth(cont, xlen)):
+    return True
+  ctx.count("container:" + what)
+  if not r.same(mdl):
+    ctx.violation(what + "/wrong-rational-function", case, got=repr(r),
+                  want=repr(mdl))
+    return True
   # substitution f(g): evaluate at rational points; besides the random g, a g
   # of a special shape (scaled delay / advance, z / c, bilinear map, ...): an
   # implementation may treat monomials separately
@@ -656,3 +690,7 @@ def finish(ctx):
   for m in ["append", "setitem", "delitem", "insert", "iadd", "pop", "extend"]:
     ctx.need("container:cascade-mutated-" + m, 10)
     ctx.need("container:parallel-mutated-" + m, 10)
+  for c in ["parallel2-linearfilter-parts", "cascade2-linearfilter-parts",
+            "parallel-linearfilter-and-zfilter", "parallel-of-cascade",
+            "cascade-of-parallel"]:
+    ctx.need("container:" + c, 20)
